@@ -295,6 +295,60 @@ impl Check for C08 {
         let mut cur_cfg = cfg.clone();
         let mut cur_setup = setup.clone();
         let stratum = (i / setups.len() as u64) as usize;
+        // "there and back": a configuration change, an edit, a run, the configuration change
+        // taken back, a run. Whatever the intermediate configuration left behind (or did not
+        // refresh) must not be vouched for once the first configuration is in force again.
+        let there_and_back = pair.is_none() && i % 9 == 4;
+        if there_and_back {
+            let before_cfg = cur_cfg.clone();
+            let before_setup = cur_setup.clone();
+            let mut done = false;
+            for _ in 0..20 {
+                let class = *sr.pick(&["visualize", "visualize", "mode", "mapping_add", "include_private", "flag_visualize", "flag_mode", "project_path_spelling", "output_path"]);
+                if let Some((c, o, d)) = gen_config_change(&mut sr, class, &cur_cfg, &cur_setup, &cur_model) {
+                    cur_cfg = c.clone();
+                    if let Some(o) = &o {
+                        cur_setup.out = o.clone();
+                    }
+                    let mut ps = None;
+                    if class == "project_path_spelling" {
+                        cur_setup.proj_style = (cur_setup.proj_style + 1) % 4;
+                        ps = Some(cur_setup.proj_style);
+                    }
+                    steps.push(Step { kind: "config".into(), label: class.to_string(), desc: d, model: None, cfg: Some(c), out: o, proc: None, entry: None, at: 0, mtime_mode: String::new(), proj_style: ps });
+                    // an edit in between
+                    for _ in 0..20 {
+                        let ec = *sr.pick(EDIT_CLASSES);
+                        if let Some((m, d)) = gen_edit(&mut sr, ec, &cur_model) {
+                            cur_model = m.clone();
+                            steps.push(Step { kind: "edit".into(), label: ec.to_string(), desc: d, model: Some(m), cfg: None, out: None, proc: None, entry: None, at: 0, mtime_mode: String::new(), proj_style: None });
+                            break;
+                        }
+                    }
+                    steps.push(Step { kind: "run".into(), label: "run".into(), desc: "non-forced run".into(), model: None, cfg: None, out: None, proc: Some(gen_proc(&mut sr)), entry: None, at: 0, mtime_mode: String::new(), proj_style: None });
+                    // and back
+                    steps.push(Step {
+                        kind: "config".into(),
+                        label: format!("revert:{}", class),
+                        desc: format!("take `{}` back", class),
+                        model: None,
+                        cfg: Some(before_cfg.clone()),
+                        out: if before_setup.out != cur_setup.out { Some(before_setup.out.clone()) } else { None },
+                        proc: None,
+                        entry: None,
+                        at: 0,
+                        mtime_mode: String::new(),
+                        proj_style: if before_setup.proj_style != cur_setup.proj_style { Some(before_setup.proj_style) } else { None },
+                    });
+                    cur_cfg = before_cfg.clone();
+                    cur_setup = before_setup.clone();
+                    done = true;
+                    break;
+                }
+            }
+            let _ = done;
+        }
+        let n_changes = if there_and_back { 0 } else { n_changes };
         for k in 0..n_changes {
             let last = k + 1 == n_changes;
             // the last change walks through all classes; earlier ones are random
